@@ -36,6 +36,18 @@ pub trait Poll {
 	fn get_header<'a>(
 		&'a self, block_hash: &'a BlockHash, height_hint: Option<u32>,
 	) -> impl Future<Output = BlockSourceResult<ValidatedBlockHeader>> + Send + 'a;
+
+	/// Checks that `header` correctly builds on `previous_header` when the caller already holds
+	/// the previous header (e.g., from a header cache) and thus did not obtain it, checked, from
+	/// [`Poll::look_up_previous_header`].
+	///
+	/// By default only the network-independent rules are checked (previous block hash, height and
+	/// chainwork); implementations that know the network also check the difficulty transition.
+	fn check_builds_on(
+		&self, header: &ValidatedBlockHeader, previous_header: &ValidatedBlockHeader,
+	) -> BlockSourceResult<()> {
+		header.check_builds_on(previous_header, Network::Regtest)
+	}
 }
 
 /// A chain tip relative to another chain tip in terms of block hash and chainwork.
@@ -262,6 +274,12 @@ impl<B: Deref<Target = T> + Sized + Send + Sync, T: BlockSource + ?Sized> Poll
 		&'a self, header: &'a ValidatedBlockHeader,
 	) -> impl Future<Output = BlockSourceResult<ValidatedBlock>> + Send + 'a {
 		async move { self.block_source.get_block(&header.block_hash).await?.validate(header.block_hash) }
+	}
+
+	fn check_builds_on(
+		&self, header: &ValidatedBlockHeader, previous_header: &ValidatedBlockHeader,
+	) -> BlockSourceResult<()> {
+		header.check_builds_on(previous_header, self.network)
 	}
 
 	fn get_header<'a>(
